@@ -19,7 +19,7 @@ CLAIMED = {
   'C16': dict(engine='envs', design='5/C16',
      technique='deterministic simulation: seeded reset keys and adversarial action schedules (uniform, bang-bang, held, chatter, zero-then-bang) with auto-reset boundaries inside the history; per-step on-device safety invariants; cross-process replay digests and duplicate-member determinism',
      text='All 11 registered physics environments on every native backend they accept are driven through training.wrap for 200-1000 wrapped steps in batches of 8-128; after every step all observations, rewards, done flags, q, qd, link poses and velocities must be finite and link quaternions unit; shapes match the declared sizes; done=0 at reset; the same genome re-executed in another process and a duplicated member must give bit-identical results. Sampled exploration, float32 (the precision the bundled envs run in).',
-     note='Trusted: XLA CPU with pinned flags. mjx backend not exercised. Unit-quaternion tolerance 1e-5 in float32.'),
+     note='Trusted: XLA CPU with pinned flags. mjx backend not exercised. Unit-quaternion tolerance 2e-6 in float32.'),
 }
 
 NA = {
